@@ -69,12 +69,34 @@ class FD:
 
 
 class SymArray:
-    def __init__(self, items, isfloat=True):
-        self.items = list(items)
+    """1-d numpy array model.  A basic slice of a SymArray is a *view* (numpy semantics): it shares storage with its base,
+    so element writes through the view are visible in the base and vice versa."""
+
+    def __init__(self, items, isfloat=True, base=None, index=None):
+        self._items = list(items) if base is None else None
         self.isfloat = isfloat
+        self.base = base          # root SymArray (never itself a view)
+        self.index = index        # positions in the root's storage
+
+    @property
+    def items(self):
+        if self.base is None:
+            return self._items
+        return [self.base._items[i] for i in self.index]
+
+    def storage(self, k):
+        """(python list, position) holding element k"""
+        if self.base is None:
+            return self._items, k
+        return self.base._items, self.index[k]
+
+    def view(self, sl):
+        root = self if self.base is None else self.base
+        idx = list(range(len(self._items)))[sl] if self.base is None else self.index[sl]
+        return SymArray(None, self.isfloat, base=root, index=idx)
 
     def __len__(self):
-        return len(self.items)
+        return len(self._items) if self.base is None else len(self.index)
 
     def __repr__(self):
         return "SymArray%r" % (self.items,)
